@@ -1,40 +1,7 @@
-import Pcore.Model.Ser
+import Pcore.Model.SerSpec
 /-! Helper lemmas for C10, part 1: positions, hash alternation, capabilities (stream laws that need no sharing
     hypothesis).  Property theorems are in `Pcore/Props/C10.lean`. -/
 namespace Pcore.Ser
-
-mutual
-/-- positions an event consumes in the consumer (Add / AddArray / AddHash: one each; AddRef: none) -/
-def Ev.npos : Ev → Nat
-  | .add _ => 1 | .ref _ => 0
-  | .arr es => 1 + nposList es
-  | .hsh es => 1 + nposList es
-def nposList : List Ev → Nat
-  | [] => 0 | e :: es => e.npos + nposList es
-end
-
-def Ev.isStr : Ev → Bool
-  | .add (.str _) => true | _ => false
-
-def Ev.isBin : Ev → Bool
-  | .add (.bin _) => true | _ => false
-
-/-- children of a hash: an even number, alternating key, value; with `sk` every key is a plain string -/
-def hkeys (sk : Bool) : List Ev → Bool
-  | [] => true
-  | [_] => false
-  | k :: _ :: r => (!sk || k.isStr) && hkeys sk r
-
-mutual
-/-- stream law: hashes alternate (`hkeys`), with `sk` all keys are strings, with `nb` no Binary is handed over -/
-def Ev.wf (sk nb : Bool) : Ev → Bool
-  | .add d => !(nb && (Ev.add d).isBin)
-  | .ref _ => true
-  | .arr es => wfList sk nb es
-  | .hsh es => hkeys sk es && wfList sk nb es
-def wfList (sk nb : Bool) : List Ev → Bool
-  | [] => true | e :: es => e.wf sk nb && wfList sk nb es
-end
 
 theorem nposList_append (a b : List Ev) : nposList (a ++ b) = nposList a + nposList b := by
   induction a with
